@@ -6,6 +6,7 @@ use super::Args;
 use crate::engine::*;
 use crate::gen::{gen_doc, relayout, render, GenCfg};
 use crate::model::{self, Cmp, Node};
+use crate::scalars::gen_int;
 use crate::serdefam::*;
 use crate::tape::{fnv64, Tape};
 use serde::de::DeserializeOwned;
@@ -296,6 +297,76 @@ fn routes_value(s: &str) -> Vec<(&'static str, Result<toml::Value, String>)> {
     ]
 }
 
+/// single values of any shape (not only tables) as the *root* target of the value routes: the text
+/// written by the two value serializers and by `toml::Value` Display is decoded by the value
+/// deserializers; all must return the value
+pub fn check_value_type<T: DeserializeOwned + Serialize + std::fmt::Debug>(ty: &str, v: &T, st: &mut Stats) -> Result<(), Failure> {
+    st.eval();
+    st.class(&format!("value-root.{ty}"));
+    let sd = record(v);
+    st.nontrivial(fnv64(format!("{ty}{sd:?}").as_bytes()));
+    let case = || json!({"type": ty, "value": format!("{v:?}")});
+    let mut texts: Vec<(&'static str, String)> = vec![];
+    {
+        let mut out = String::new();
+        match v.serialize(toml::ser::ValueSerializer::new(&mut out)) {
+            Ok(()) => texts.push(("toml::ser::ValueSerializer", out)),
+            // a struct / tuple variant at the root is a documented unsupported shape: an error is
+            // accepted there (C07 pins that a success round-trips), nowhere else
+            Err(_) if root_variant_may_fail(&sd) => st.class("value-root.variant-refused"),
+            Err(e) => return Err(Failure::new("value-ser", format!("toml::ser::ValueSerializer fails for {ty}: {e}\n{v:?}"), case())),
+        }
+    }
+    match v.serialize(toml_edit::ser::ValueSerializer::new()) {
+        Ok(val) => texts.push(("toml_edit::ser::ValueSerializer", val.to_string())),
+        Err(_) if root_variant_may_fail(&sd) => st.class("value-root.variant-refused"),
+        Err(e) => return Err(Failure::new("value-ser", format!("toml_edit::ser::ValueSerializer fails for {ty}: {e}\n{v:?}"), case())),
+    }
+    match toml::Value::try_from(v) {
+        Ok(val) => texts.push(("toml::Value::try_from + Display", val.to_string())),
+        Err(_) if root_variant_may_fail(&sd) => st.class("value-root.variant-refused"),
+        Err(e) => return Err(Failure::new("value-ser", format!("toml::Value::try_from fails for {ty}: {e}\n{v:?}"), case())),
+    }
+    st.sample(|| json!({"type": ty, "texts": texts.iter().map(|(_, t)| t.clone()).collect::<Vec<_>>()}));
+    for (wrote, text) in &texts {
+        for (who, r) in [
+            ("toml::de::ValueDeserializer", T::deserialize(toml::de::ValueDeserializer::new(text)).map_err(|e| e.to_string())),
+            ("toml_edit::de::ValueDeserializer", text.parse::<toml_edit::de::ValueDeserializer>().map_err(|e| e.to_string()).and_then(|d| T::deserialize(d).map_err(|e| e.to_string()))),
+            ("toml_edit::Value into_deserializer", text.parse::<toml_edit::Value>().map_err(|e| e.to_string()).and_then(|val| {
+                use serde::de::IntoDeserializer;
+                T::deserialize(val.into_deserializer()).map_err(|e: toml_edit::de::Error| e.to_string())
+            })),
+            ("toml::Value::try_into", toml::Value::try_from(v).map_err(|e| e.to_string()).and_then(|val| val.try_into::<T>().map_err(|e| e.to_string()))),
+        ] {
+            match r {
+                Ok(b) if sd_eq(&record(&b), &sd) => {}
+                Ok(b) => return Err(Failure::new("value-root", format!("{who} on the text {text:?} written by {wrote} for {ty}: value differs\nwant {v:?}\ngot  {b:?}"), case())),
+                Err(e) => return Err(Failure::new("value-root", format!("{who} fails on the text {text:?} written by {wrote} for {ty}: {e}"), case())),
+            }
+        }
+    }
+    Ok(())
+}
+
+fn prop_value_roots(t: &mut Tape, st: &mut Stats) -> Result<(), Failure> {
+    match t.below(14) {
+        0 => check_value_type("NewT(i64)", &NewT(gen_int(t)), st),
+        1 => check_value_type("NewStr", &NewStr(g_string(t)), st),
+        2 => check_value_type("NewInner", &NewInner(g_inner(t)), st),
+        3 => check_value_type("NewVec", &NewVec(g_vec(t, 3, g_inner)), st),
+        4 => check_value_type("NewE", &NewE(g_e(t)), st),
+        5 => check_value_type("NewNew", &NewNew(NewT(gen_int(t))), st),
+        6 => check_value_type("NewArr", &NewArr(g_vec(t, 3, |t| g_vec(t, 3, g_string))), st),
+        7 => check_value_type("i64", &gen_int(t), st),
+        8 => check_value_type("String", &g_string(t), st),
+        9 => check_value_type("Vec<Inner>", &g_vec(t, 3, g_inner), st),
+        10 => check_value_type("(i32,String)", &(g_i32(t), g_string(t)), st),
+        11 => check_value_type("E", &g_e(t), st),
+        12 => check_value_type("TupS", &TupS(g_i32(t), g_string(t), t.chance(1, 2)), st),
+        _ => check_value_type("Inner", &g_inner(t), st),
+    }
+}
+
 fn prop_types(t: &mut Tape, st: &mut Stats) -> Result<(), Failure> {
     match t.below(10) {
         0 => check_type("Scalars", &g_scalars(t), t, st),
@@ -338,9 +409,11 @@ pub fn run(args: Args) -> ! {
     }
     let run = run_tape("C13.types", &prop_types, 4000, args.tier.pick(80_000, 1_000_000), args.seed, workers());
     finish_run(&mut rep, "types", run);
+    let run = run_tape("C13.value-roots", &prop_value_roots, 400, args.tier.pick(60_000, 600_000), args.seed, workers());
+    finish_run(&mut rep, "value-roots", run);
     let run = run_tape("C13.documents", &prop_docs, 3000, args.tier.pick(150_000, 2_000_000), args.seed, workers());
     finish_run(&mut rep, "documents", run);
-    for c in ["type.Dates", "type.Nested", "has-datetime", "respelt", "perturbed", "perturb.array-as-positional-table", "perturb.reorder", "document", "route-ok"] {
+    for c in ["type.Dates", "type.Nested", "has-datetime", "respelt", "perturbed", "perturb.array-as-positional-table", "perturb.reorder", "document", "route-ok", "value-root.NewInner", "value-root.NewVec", "value-root.E"] {
         rep.require_class(c);
     }
     rep.finish()
